@@ -21,9 +21,11 @@ Definition is_none_ann (a : ann) : bool := match a with ANone => true | _ => fal
 (* ---------- infer_type_annotation_from_default: the type of an un-annotated parameter, from its default ---------- *)
 Inductive bty := TInt | TStr | TFloat | TBool.
 (* what a default value is: a bool / int / float / str, a tuple of such, or anything else *)
-Inductive dkind := DBool | DInt | DFloat | DStr | DTuple (l : list dkind) | DOther | DList (l : list dkind).   (* DList: a list *)
+Inductive dkind := DBool | DInt | DFloat | DStr | DTuple (l : list dkind) | DOther | DList (l : list dkind)    (* DList: a list *)
+               | DDict (empty : bool).                                           (* a dict: {} or not *)
 Inductive ity := IB (t : bty) | ITuple (l : list ity) | IFail          (* IFail: NotImplementedError / not one of these *)
-             | IList (t : ity) | IListBare.                          (* list[T] from the FIRST item; bare `list` for [] *)
+             | IList (t : ity) | IListBare                           (* list[T] from the FIRST item; bare `list` for [] *)
+             | IDictBare.                                            (* bare `dict`, for {} only *)
 (* isinstance(default, t): a bool is also an int *)
 Definition isinstance_b (d : dkind) (t : bty) : bool :=
   match d, t with
@@ -47,6 +49,7 @@ Fixpoint infer (r : infer_rule) (d : dkind) : ity :=
             | DTuple l => ITuple (map (infer r) l)
             | DList [] => IListBare
             | DList (x :: _) => IList (infer r x)
+            | DDict true => IDictBare
             | _ => IFail end
   end.
 
